@@ -62,8 +62,14 @@
 /**
  * Options for print_f
  */
+#define PRINT_F_FRAC_MAX                                                       \
+    340 /* fraction digits kept in the buffer: 2^-1074 * 10^340 is integral,   \
+           further precision is printed as zeros */
+#define PRINT_F_EXP_MAX 5 /* digits of the exponent kept in the buffer */
 #define PRINT_F_BUFF_SZ                                                        \
-    65 /* size of buffer for long double -- FIXME this may not be enough */
+    (PRINT_F_FRAC_MAX + PRINT_F_EXP_MAX + 7) /* "d." + fraction + "e+" +       \
+          exponent + two terminators; the 309 integer digits of DBL_MAX fit    \
+          too, and the integer digit loop stops at the start of the buffer */
 //#define PRINT_F_PREC_SHORTENED 4 /* shortened precision for real numbers */
 #define PRINT_F_PREC_DEFAULT 6 /* default precision for real numbers */
 
@@ -267,7 +273,9 @@ static int print_f(void (*printchar_handler)(void *d, int c),
     }
     fp = with_exp ? fp : MODF(r, &ip);
     precision -= (int)(is_shortened ? ceill(LOG10(ip)) + (ip != 0.0L) : 0);
-    for (; (sign_count < precision) && (FMOD(fp, 1.0L) != 0.0L); ++sign_count)
+    for (; (sign_count < precision) && (sign_count < PRINT_F_FRAC_MAX) &&
+           (FMOD(fp, 1.0L) != 0.0L);
+         ++sign_count)
         fp *= base;
     fp = roundl(fp);
 
@@ -286,7 +294,7 @@ static int print_f(void (*printchar_handler)(void *d, int c),
                 ch += letter_base - 10 - '0';
             *--postfix = ch + '0';
             MODF(ep / base, &ep);
-        } while (ep != 0.0L);
+        } while ((ep != 0.0L) && (end - postfix < PRINT_F_EXP_MAX));
         if ((strlen(postfix) == 1) && (base != 16))
             *--postfix = '0';
         *--postfix = signbit(ep) ? '-' : '+';
@@ -319,7 +327,7 @@ static int print_f(void (*printchar_handler)(void *d, int c),
             ch += letter_base - 10 - '0';
         *--str = ch + '0';
         MODF(ip / base, &ip);
-    } while (ip != 0.0L);
+    } while ((ip != 0.0L) && (str > &buff[0]));
 
     len = (int)(end - str);
     postfix_len = (int)strlen(postfix);
